@@ -60,7 +60,8 @@ Proof.
   intros W. apply walk_walked in W.
   destruct W as [sk h rest Hp Hsk Hh Hplan Hcons Hev Hatt Hexc Harm | Hsk Hplan Hcons Hev Hatt Hexc Harm].
   - left. exact Hexc.
-  - destruct b; [|left; exact Hexc]. right; right. split; [exact Hexc|]. rewrite Hplan. destruct (plan s); reflexivity.
+  - destruct b; [|left; exact Hexc]. cbn [andb] in Hexc. destruct (completed s); cbn [negb] in Hexc; [left; exact Hexc|].
+    right; right. split; [exact Hexc|]. rewrite Hplan. destruct (plan s); reflexivity.
 Qed.
 
 Lemma query_exc s h m cz s1 ev ok : query s h m cz = (s1, ev, ok) -> fin_exc s1 = fin_exc s.
@@ -77,14 +78,28 @@ Proof.
   eapply exc_step_pre; [exact Q|eapply walk_exc; eauto].
 Qed.
 
-Ltac other_exc := right; left; eexists; split; [reflexivity|intros e0; discriminate].
+Lemma fail_with_exc_step s x : (forall e, x <> XNoHost e) -> exc_step s (fail_with s x).
+Proof.
+  intros N. destruct (fail_with_exc s x) as [E _]. destruct (completed s).
+  - left. exact E.
+  - right; left. exists x. auto.
+Qed.
+
+Lemma finish_with_exc_step s r : exc_step s (finish_with s r).
+Proof. left. apply finish_with_res. Qed.
+
+Ltac other_exc := first [apply fail_with_exc_step; intros e0; discriminate | apply finish_with_exc_step].
 
 Lemma set_result_exc c s h r s' ev : set_result c s h r = (s', ev) -> exc_step s s'.
 Proof.
-  intros H. destruct r; cbn [set_result] in H; try (inversion H; subst; (left; reflexivity) || other_exc).
+  intros H. destruct r; cbn [set_result] in H; try (inversion H; subst; other_exc).
   - destruct (pol c (nconsult s) k tag (retries s) (if request_error_kind k then msg_cl s else None)) as [d dcl].
     unfold handle_decision in H. inversion H; subst; clear H.
-    destruct d; try (left; reflexivity); other_exc.
+    destruct d; try (left; reflexivity).
+    + destruct (fail_with_exc (tick_consult s) (XResp k tag)) as [E _].
+      change (completed (tick_consult s)) with (completed s) in E.
+      destruct (completed s); [left; exact E|]. right; left. exists (XResp k tag). split; [exact E|intros e0; discriminate].
+    + left. exact (proj2 (finish_with_res (tick_consult s) FNone)).
   - unfold unprepared in H.
     assert (G : forall ps, unprep_go c s h ps = (s', ev) -> exc_step s s').
     { intros [[pid qs] ks0] G. unfold unprep_go in G.
